@@ -54,7 +54,7 @@ def restamp(path, tree, pre, clock):
         if old is not None and old[1] == m:
             out['files'][n] = (b, old[2])
         else:
-            os.utime(os.path.join(path, n), ns=(clock * 10 ** 9, clock * 10 ** 9))
+            os.utime(os.path.join(path, n), ns=(clock * TICK, clock * TICK))
             out['files'][n] = (b, clock)
     for n, s in tree['subs'].items():
         out['subs'][n] = restamp(os.path.join(path, n), s, (pre or {'subs': {}})['subs'].get(n), clock)
@@ -64,6 +64,11 @@ def restamp(path, tree, pre, clock):
 def snapshot(path):
     """(bytes, real mtime_ns, logical) is kept in the harness state; here: bytes and real mtime"""
     return read_tree(path)
+
+
+# one tick of the logical clock is a quarter of a second of file time: consecutive logical times usually fall inside the same whole
+# second, so a staleness test that looks at whole seconds only is seen
+TICK = 250 * 10 ** 6
 
 
 class World:
@@ -90,7 +95,7 @@ class World:
     def touch(self, rel, t=None):
         p = os.path.join(self.src, rel)
         t = t or self.tick()
-        os.utime(p, ns=(t * 10 ** 9, t * 10 ** 9))
+        os.utime(p, ns=(t * TICK, t * TICK))
 
     def tree_logical(self, path):
         d = {'files': {}, 'subs': {}}
@@ -102,7 +107,7 @@ class World:
                 d['subs'][n] = self.tree_logical(p)
             else:
                 with open(p, 'r', newline='') as f:
-                    d['files'][n] = (f.read(), os.stat(p).st_mtime_ns // 10 ** 9)
+                    d['files'][n] = (f.read(), os.stat(p).st_mtime_ns // TICK)
         return d
 
 
@@ -175,9 +180,9 @@ def one_history(seed, tier, base):
                 rel = os.path.relpath(o, w.out)
                 srcp = os.path.join(w.src, rel.replace('.min.css', '.less').replace('.css', '.less'))
                 if os.path.exists(srcp):
-                    st = os.stat(srcp).st_mtime_ns // 10 ** 9
+                    st = os.stat(srcp).st_mtime_ns // TICK
                     t = st + rng.choice([-1, 0, 1])
-                    os.utime(o, ns=(t * 10 ** 9, t * 10 ** 9))
+                    os.utime(o, ns=(t * TICK, t * TICK))
         else:
             fl = {'force': rng.random() < 0.25, 'dry': rng.random() < 0.15, 'min': rng.random() < 0.3, 'recurse': rng.random() < 0.6}
             for kf in ('minify', 'xminify', 'tabs'):
@@ -209,7 +214,7 @@ def normalise(path, tree, pre, now):
         elif old is not None and old[1] == m:
             out['files'][n] = (b, m)            # bytes changed but the time stamp did not: report as is (would be a mismatch)
         else:
-            os.utime(os.path.join(path, n), ns=(now * 10 ** 9, now * 10 ** 9))
+            os.utime(os.path.join(path, n), ns=(now * TICK, now * TICK))
             out['files'][n] = (b, now)
     for n, s in tree['subs'].items():
         out['subs'][n] = normalise(os.path.join(path, n), s, (pre or {'subs': {}})['subs'].get(n), now)
